@@ -5,6 +5,8 @@
 Require Import List String Arith Bool.
 Require Import MPSV.Ctx.ErrorModel MPSV.Ctx.ErrorProofs.
 Require MPSV.Ctx.ResizeModel MPSV.Ctx.ResizeProofs.
+Require MPSV.Ctx.AbortModel MPSV.Ctx.AbortProofs.
+Require MPSV.Total.SkelDefs MPSV.Total.SkelProofs.
 Import ListNotations.
 Open Scope string_scope.
 
@@ -61,3 +63,103 @@ Theorem C18_async_callback_once_partial : forall err,
   (err = true -> mpsolve_async err true = [EvCallback]).
 Proof. exact async_callback_once. Qed.
 Print Assumptions C18_async_callback_once_partial.
+
+(* ------------------------------------------------------------------------------------------------
+   Abort polling (Ctx/AbortModel.v): the aborting client, the driver mps_secular_ga_mpsolve and the k
+   workers of an iteration packet interleave arbitrarily; every read of exit_required in secular-ga.c
+   and secular-iteration.c is a program point; numerics are oracle values.  [run c s l] follows a list
+   of (thread, oracle value) steps, each of which must be enabled. *)
+Module A := AbortModel.
+
+(* FOR EVERY INTERLEAVING AND ORACLE: once the flag is set in a reachable state before mps_improve is entered,
+   the driver and the workers together take at most 5k+7 further steps, of which at most k are Newton steps
+   (one per worker: the one in flight), begin at most 2 packets and 2 regenerations; the flag stays set and
+   mps_improve is not entered any more. *)
+Theorem C18_abort_steps_bounded : forall c l0 s es0 l s' es,
+  A.run c (A.init c) l0 = Some (s, es0) ->
+  A.flag s = true -> A.pc s <> A.DImprove ->
+  A.run c s l = Some (s', es) ->
+  A.solver_steps l <= 5 * A.nthreads c + 7 /\
+  A.count A.is_newton es <= A.nthreads c /\
+  A.count A.is_packet es <= 2 /\
+  A.count A.is_regen es <= 2 /\
+  A.flag s' = true /\ A.pc s' <> A.DImprove.
+Proof. exact AbortProofs.abort_steps_bounded. Qed.
+Print Assumptions C18_abort_steps_bounded.
+
+(* the same, state by state (also for states that are not reachable): the steps still to come are bounded by
+   the rank of the state, e.g. 1 at a poll of the driver, 2 at the cleanup *)
+Theorem C18_abort_steps_le_rank : forall c s l s' es,
+  A.flag s = true -> A.pc s <> A.DImprove -> A.run c s l = Some (s', es) ->
+  A.solver_steps l + A.rank c s' <= A.rank c s.
+Proof. exact AbortProofs.abort_steps_le_rank. Qed.
+Print Assumptions C18_abort_steps_le_rank.
+
+(* no thread is ever stuck: in EVERY state in which the solve has not returned some solver thread can step,
+   whatever the oracle value (a worker blocked on a root mutex waits for a worker inside the locked region, the
+   driver in mps_thread_pool_wait for a worker that has not left its loop).  With the bound above: every
+   schedule that keeps choosing enabled threads ends the solve within 5k+7 steps of the request. *)
+Theorem C18_abort_no_thread_stuck : forall c s,
+  A.terminated s = false -> exists t, A.solver t = true /\ forall o, A.step c s t o <> None.
+Proof. exact AbortProofs.abort_no_thread_stuck. Qed.
+Print Assumptions C18_abort_no_thread_stuck.
+
+(* every solve (aborted or not, any interleaving) that returns has the error flag set or went through the
+   cleanup without errors: inclusions validated and roots copied *)
+Theorem C18_abort_good_end : forall c l s es,
+  A.run c (A.init c) l = Some (s, es) -> A.terminated s = true -> A.err s <> A.ENone \/ A.copied s = true.
+Proof. exact AbortProofs.abort_good_end. Qed.
+Print Assumptions C18_abort_good_end.
+
+(* a read of the flag by the driver that sees it set is followed by the return with "Exit forced by the caller"
+   or by the cleanup (check_stop) or, at :623, by the plain return *)
+Theorem C18_abort_poll_true_ends : forall c s o s' line,
+  A.step c s A.TDriver o = Some (s', A.EvPoll line true) ->
+  (A.pc s' = A.DRet /\ A.err s' = A.EExit) \/ A.pc s' = A.DCleanup \/ (line = 623 /\ A.pc s' = A.DRet).
+Proof. exact AbortProofs.poll_true_ends. Qed.
+Print Assumptions C18_abort_poll_true_ends.
+
+(* non-vacuity: 2 workers, abort while both are between job_queue_next and the lock; both still do their
+   Newton step, the driver reads the flag at :465 and returns "Exit forced by the caller": 10 steps *)
+Definition C18_cfg2 : A.config :=
+  {| A.nthreads := 2; A.secular_input := true; A.jacobi := false; A.avoid_mp := false; A.crude := false; A.goal_approx := true |}.
+Definition C18_prefix : list (A.tid * nat) :=
+  [(A.TDriver, 1); (A.TDriver, 1); (A.TDriver, 0); (A.TDriver, 0); (A.TWorker 0, 0); (A.TWorker 1, 0);
+   (A.TWorker 0, 1); (A.TWorker 1, 2); (A.TAbort, 0)].
+Definition C18_suffix : list (A.tid * nat) :=
+  [(A.TWorker 0, 0); (A.TWorker 1, 0); (A.TWorker 0, 3); (A.TWorker 1, 3); (A.TWorker 0, 0); (A.TWorker 1, 0);
+   (A.TDriver, 1); (A.TDriver, 0)].
+Example C18_abort_nonvacuous :
+  match A.run C18_cfg2 (A.init C18_cfg2) C18_prefix with
+  | Some (s, _) => A.flag s = true /\ A.pc s = A.DWait1 /\
+      match A.run C18_cfg2 s C18_suffix with
+      | Some (s', es) => A.terminated s' = true /\ A.err s' = A.EExit /\ A.solver_steps C18_suffix = 8 /\
+                         A.count A.is_newton es = 2
+      | None => False end
+  | None => False end.
+Proof. vm_compute. repeat split. Qed.
+
+(* REFUTED for mps_improve: it never reads the flag.  The state below (flag set, inside mps_improve) is reached by
+   a run of the model, and from it the driver takes n further steps for every n without returning. *)
+Theorem C18_abort_improve_refuted : forall k n,
+  A.run (AbortProofs.cfg_approx k) (AbortProofs.in_improve k) (repeat (A.TDriver, 1) n)
+    = Some (AbortProofs.in_improve k, repeat A.EvImprove n) /\
+  A.solver_steps (repeat (A.TDriver, 1) n) = n /\ A.terminated (AbortProofs.in_improve k) = false /\
+  A.flag (AbortProofs.in_improve k) = true.
+Proof. exact AbortProofs.improve_ignores_abort. Qed.
+Print Assumptions C18_abort_improve_refuted.
+
+Example C18_improve_state_reachable :
+  option_map fst (A.run (AbortProofs.cfg_approx 1) (A.init (AbortProofs.cfg_approx 1)) AbortProofs.path_to_improve)
+  = Some (AbortProofs.in_improve 1).
+Proof. vm_compute. reflexivity. Qed.
+
+(* REFUTED for the classic driver: C03's skeleton of mps_standard_mpsolve (coq/Total/SkelDefs.v, tied to the code
+   by C03) contains no read of exit_required; with the flag set from the very start it is still running after k
+   steps, for every k, under the adversary oracle (exact input, goal approximate). *)
+Theorem C18_abort_classic_refuted : forall c g,
+  SkelDefs.in_prec g = 0 -> SkelDefs.cgoal g = SkelDefs.Approximate -> SkelDefs.resume g = false ->
+  forall k, let r := SkelDefs.run _ (A.classic_step c g) A.classic_terminal k SkelDefs.adversary 0 (true, SkelDefs.uinit) in
+            fst r = true /\ A.classic_terminal r = false.
+Proof. exact AbortProofs.classic_ignores_abort. Qed.
+Print Assumptions C18_abort_classic_refuted.
